@@ -60,7 +60,10 @@ def label_enum(name):
             "unknown": M["AutowareLabel"].UNKNOWN, "false_positive": M["AutowareLabel"].FP}[name]
 
 
-def gen_spec(rng, label=None, near=None):
+def gen_spec(rng, label=None, near=None, labels=None):
+    """labels (optional): a label pool the object's label is drawn from in 85 % of the draws (concentrates a scene on few labels)"""
+    if labels and label is None and rng.random() < 0.85:
+        label = rng.choice(labels)
     lab = label or rng.choice(LABELS[:3] if rng.random() < 0.8 else LABELS)
     if near is not None and rng.random() < 0.85:
         # offsets with integer-hypotenuse options so that distances tie with thresholds exactly
@@ -75,16 +78,17 @@ def gen_spec(rng, label=None, near=None):
     return {"label": lab, "pos": pos, "size": size, "yaw": yaw}
 
 
-def gen_scene(rng, n=None, tie_heavy=False):
+def gen_scene(rng, n=None, tie_heavy=False, labels=None):
+    """labels (optional, default None = the historical label mix): see gen_spec"""
     n = rng.randint(0, 14) if n is None else n
     results = []
     for _ in range(n):
-        gt = gen_spec(rng) if rng.random() < 0.8 else None
+        gt = gen_spec(rng, labels=labels) if rng.random() < 0.8 else None
         if gt is not None:
             same = rng.random() < 0.75
-            est = gen_spec(rng, label=gt["label"] if same and gt["label"] != "false_positive" else None, near=gt)
+            est = gen_spec(rng, label=gt["label"] if same and gt["label"] != "false_positive" else None, near=gt, labels=labels)
         else:
-            est = gen_spec(rng)
+            est = gen_spec(rng, labels=labels)
         est["conf"] = rng.choice([0.5, 0.75, 0.25]) if tie_heavy else rng.randint(0, 64) / 64
         if not tie_heavy and 0 < est["conf"] < 1 and rng.random() < 0.2:
             # distinct but within float32 resolution of a lattice value (the ranking is by the exact confidence)
@@ -93,10 +97,11 @@ def gen_scene(rng, n=None, tie_heavy=False):
     return {"policy": rng.choice(POLICIES), "results": results}
 
 
-def threshold_for(rng, mode):
+def threshold_for(rng, mode, zero=False):
+    """zero (optional, default False = the historical pools): the distance pool also holds the falsy-but-valid 0.0 (no distance is below it)"""
     if MAXIMIZE[mode]:
         return rng.choice([0.0, 0.1, 0.25, 0.5, 0.75, 1.0, 1.0 / 3])
-    return rng.choice([0.125, 0.5, 1.0, 1.25, 2.0, 2.5, 5.0, 10.0, 0.625])
+    return rng.choice([0.125, 0.5, 1.0, 1.25, 2.0, 2.5, 5.0, 10.0, 0.625] + ([0.0] if zero else []))
 
 
 def facts(scene, results, mode, target_labels, thresholds, tp_metrics):
